@@ -106,6 +106,16 @@ def exec_case(p, res):
         objs = [(A, 'A'), (B, 'x')] + ([(guess, 'initial guess')] if guess is not None else [])
         snaps = [(o, take_snap(o), w) for o, w in objs]
         ys = {}
+        if p.get('prelude') is not None:
+            # history dimension (see c11): the compiled backend has already multiplied other operands of the same structure
+            try:
+                pp = dict(p, vseed=p['prelude'], plan=None, prelude=None)
+                A2, B2, g2 = c11.build(pp)[:3]
+                seams.seed_global(p['tseed'] ^ 0x5a5a5a)
+                A2.fast_matvec(B2, eps=p['eps'], initial=g2, use_cpp=True)
+            except Exception:
+                core.bump(stats, 'history.prelude_raised')
+            core.bump(stats, 'probe.call_with_history')
         for backend in ('cpp', 'py'):
             kw = {}
             if p.get('exact_nswp') and len(p['N']) > 1:
@@ -158,6 +168,15 @@ def exec_case(p, res):
     objs = [(A, 'A'), (b, 'b')] + ([(x0, 'x0')] if x0 is not None else [])
     snaps = [(o, take_snap(o), w) for o, w in objs]
     xs = {}
+    if p.get('prelude') is not None:
+        try:
+            pp = dict(p, vseed=p['prelude'], plan=None, prelude=None)
+            A2, b2, x02 = c12.build(pp)
+            seams.seed_global(p['tseed'] ^ 0x5a5a5a)
+            c12.solve(pp, A2, b2, x02, use_cpp=True)
+        except Exception:
+            core.bump(stats, 'history.prelude_raised')
+        core.bump(stats, 'probe.call_with_history')
     for backend in ('cpp', 'py'):
         seams.seed_global(p['tseed'])
         try:
